@@ -342,11 +342,13 @@ theorem rejected_had_no_placement (file : List Line) (p0 : Patch) (o : ApplyOpts
   obtain ⟨h, hh, hc, hno⟩ := rejected_had_no_placement_at file p0 o tty r hwf hD hr hs ih hm
   exact ⟨h, _, hh, hc, hno⟩
 
-/-- remark: for a well-formed hunk with an old side no placement exists at or after the end of the file (since D99 `admissibleB` says
-    so itself: a placement starts inside the file; the two hypotheses on the hunk are no longer needed), so the statement above is
-    already satisfied by `c = file.length`; `rejected_had_no_placement_at` is the statement that names the cursor -/
+/-- remark: no placement exists beyond the end of the file (`admissibleB` says so itself: what fuzz ignores at the end of a hunk is
+    part of its old side; the two hypotheses on the hunk are not needed).  Since D109 the end of the file itself IS a position (for a
+    hunk whose whole old side is trailing context which fuzz ignores — `C03.D99.eof_admissible` in Props/C03Step), so the hypothesis
+    is `file.length < q` (it was `file.length ≤ q` between D99 and D109), and `c = file.length` no longer satisfies the statement
+    above for free; `rejected_had_no_placement_at` is the statement that names the cursor -/
 theorem no_placement_at_end {file : List Line} {h : Hunk} (iw : Bool) (maxFuzz : Int) {q : Nat} (f : Nat)
-    (_hwf : h.WF) (_hc : h.old.count ≠ 0) (hq : file.length ≤ q) : admissibleB file h iw maxFuzz q f = false := by
+    (_hwf : h.WF) (_hc : h.old.count ≠ 0) (hq : file.length < q) : admissibleB file h iw maxFuzz q f = false := by
   cases hadm : admissibleB file h iw maxFuzz q f
   · rfl
   · have h1 := (C02.admissibleB_fit hadm).2
